@@ -12,7 +12,8 @@ ID = "C06"
 LEVEL = "exploration"
 RULE = ("trees over {Block(0-3 children), IfThen, IfThenElse, leaf, Null} with conditions "
         "from {a,b,!a,!!a,!b,True,False,!True,!False}: exhaustive up to the internal-node bound of the "
-        "tier, plus seeded random trees (depth<=6, <=24 leaves, up to 4 flags); each tree is "
+        "tier, plus seeded random trees (depth<=6, <=24 leaves, up to 4 flags); a quarter / a third of them built "
+        "with one shared node object per distinct conditional; each tree is "
         "run through the real simplify_ast and both trees are walked under every flag "
         "valuation. distinct = canonical JSON of the tree; non-trivial = at least one "
         "internal node and at least one leaf")
